@@ -37,7 +37,10 @@ Inductive op :=
 Inductive oev :=
 | ERecv (i v : Z)     (* subscriber i's consumer received v *)
 | EClosed (i : Z)     (* subscriber i's consumer saw its channel closed *)
-| EDone (c : Z).      (* the call issued at step c (Subscribe / Batch / Close) returned *)
+| EDone (c : Z)       (* the call issued at step c (Subscribe / Batch / Close) returned *)
+| EOpen (c i : Z).    (* at the very moment the Close call issued at step c returned, its caller found
+                         subscriber i's channel still OPEN (probed for the subscribers whose consumer
+                         was not receiving at that moment) *)
 
 (* (step after which it was observed, event) *)
 Definition obs := list (Z * oev).
@@ -138,6 +141,7 @@ Definition ev_valid (e : Z * oev) : bool :=
   | ERecv i v => sub_exists_by i r && (v <? r) && match batch_key v with Some _ => true | None => false end
   | EClosed i => sub_exists_by i r
   | EDone c => is_call c && (c <=? r)
+  | EOpen c i => is_call c && (c <=? r) && sub_exists_by i r
   end.
 Definition o_valid : bool := forallb ev_valid ob.
 Definition s_valid : Prop := forall e, In e ob -> ev_valid e = true.
@@ -385,12 +389,25 @@ Definition s_depart : Prop :=
       forall r, In r steps -> Z.max x (Z.max y q) <= r -> may_block r = false ->
         exists z, closed_step (fst e) = Some z /\ z <= r.
 
+(* 9. "after Close returns ... every subscriber channel HAS BEEN closed" — at the moment of the
+      return, not a little later: the caller of a Close call never finds the channel of a certainly
+      accepted subscription still open when that call returns. *)
+Definition sub_accepted (i : Z) : bool :=
+  match find (fun e => fst e =? i) isubs with
+  | Some (_, (p, _)) => accepted_for_sure p
+  | None => false
+  end.
+Definition o_at_return : bool :=
+  forallb (fun e => match snd e with EOpen _ i => negb (sub_accepted i) | _ => true end) ob.
+Definition s_at_return : Prop :=
+  forall r c i, In (r, EOpen c i) ob -> sub_accepted i = false.
+
 Definition oracle : bool :=
   o_valid && o_once && o_not_early && o_suppress && o_due_order && o_same_order && o_no_hole
-  && o_no_wedge && o_complete && o_close && o_depart.
+  && o_no_wedge && o_complete && o_close && o_depart && o_at_return.
 
 Definition spec : Prop :=
   s_valid /\ s_once /\ s_not_early /\ s_suppress /\ s_due_order /\ s_same_order /\ s_no_hole
-  /\ s_no_wedge /\ s_complete /\ s_close /\ s_depart.
+  /\ s_no_wedge /\ s_complete /\ s_close /\ s_depart /\ s_at_return.
 
 End Spec.
